@@ -249,6 +249,9 @@ def run(ctx, method, sym=(), conc=None, elig=None, record_push=False,
         mm0 = M['mm'].TBRMatchedMarkets(data, par0)
         with np.errstate(all='ignore'):
           mm0.greedy_search()
+      if history == 'second_k':
+        k_now = par.n_designs
+        par.n_designs = 4
       mm = M['mm'].TBRMatchedMarkets(data, par)
       out.mm = mm
       if history == 'interleave':
@@ -265,6 +268,16 @@ def run(ctx, method, sym=(), conc=None, elig=None, record_push=False,
         signal.setitimer(signal.ITIMER_REAL, path_timeout)
       try:
         with np.errstate(all='ignore'):
+          if history == 'second':
+            # the object has already run both searches once
+            mm.greedy_search()
+            mm.exhaustive_search()
+          if history == 'second_k':
+            # ... with a larger n_designs (set before the object was built),
+            # lowered before this search
+            mm.greedy_search()
+            mm.exhaustive_search()
+            par.n_designs = k_now
           if method == 'exhaustive':
             out.result = mm.exhaustive_search()
           else:
